@@ -320,7 +320,7 @@ func genC03(rt *rapid.T) c03Case {
 	c.Cuts = genCuts(rt, total)
 	if rapid.IntRange(0, 3).Draw(rt, "notif") == 0 {
 		c.HandlerNotifOn = rapid.IntRange(1, n).Draw(rt, "notifon")
-		dl := pick(rt, "ndl", 0, 1, 2, 21)
+		dl := pick(rt, "ndl", 0, 1, 2, 21, 255, 4074, 4075) // 4075: the largest data a message can hold (seeded change C03w)
 		c.HandlerNotif = &world.NotifSpec{Code: pick[uint8](rt, "ncode", 3, 6, rapid.Byte().Draw(rt, "ncoder")), Sub: rapid.Byte().Draw(rt, "nsub"), Data: genBytesN(rt, "ndata", dl)}
 	}
 	if rapid.IntRange(0, 2).Draw(rt, "sleep") == 0 {
